@@ -3,6 +3,7 @@ package main
 // Symbolic execution of go/ssa function bodies (path enumeration, loops cut at invariants).
 
 import (
+	"os"
 	"fmt"
 	"go/constant"
 	"go/token"
@@ -85,6 +86,7 @@ type Exec struct {
 	usedModels map[string]string
 	axiomsLoaded bool
 	shaArgs []T
+	commute *commuteCtx
 	shaPCs [][]T
 }
 
@@ -117,6 +119,9 @@ func (x *Exec) panicIf(st *State, cond T, what string, pos token.Pos) {
 		x.emit(st, "nopanic", x.oblName("nopanic@"+what), x.posStr(pos), Not(cond))
 	}
 	if cond.S == "true" {
+		if os.Getenv("GOVC_DEBUG_LOOPS") != "" {
+			fmt.Fprintf(os.Stderr, "path ends: certain panic %s at %s\n", what, x.posStr(pos))
+		}
 		panic(pathEnd{}) // this path always panics here: it ends
 	}
 	st.assume(Not(cond), "no panic: "+what)
@@ -234,6 +239,28 @@ func (x *Exec) execBlock(st *State, fr *Frame, b *ssa.BasicBlock, prev *ssa.Basi
 			return
 		}
 	}
+	if cc := x.commute; cc != nil && fr.fn == cc.header.Parent() {
+		if b == cc.header && prev != nil && cc.blocks[prev.Index] {
+			// back edge of the range loop under commutation analysis: capture the accumulators
+			idx := -1
+			for i, p := range b.Preds {
+				if p == prev {
+					idx = i
+				}
+			}
+			var vals []Val
+			for _, p := range x.commuteHeaderPhis(b) {
+				vals = append(vals, x.val(st, fr, p.Edges[idx]))
+			}
+			cc.results = append(cc.results, iterResult{st: st, phis: vals})
+			return
+		}
+		if !cc.blocks[b.Index] {
+			cc.escaped = true
+			cc.escapes = append(cc.escapes, st)
+			return
+		}
+	}
 	if blocks, isHeader := fr.loopSet[b.Index]; isHeader {
 		if lr, active := fr.loops[b.Index]; active {
 			if prev != nil && blocks[prev.Index] {
@@ -267,6 +294,16 @@ func (x *Exec) execBlock(st *State, fr *Frame, b *ssa.BasicBlock, prev *ssa.Basi
 			defer func() { x.quiet-- }()
 			x.execInstrs(dst, dfr, b, 0, func(*State, Val) {})
 		}()
+		if os.Getenv("GOVC_DEBUG_LOOPS") != "" {
+			fmt.Fprintf(os.Stderr, "loop %s#%d: discovered written objects %v ghosts %v\n", shortFuncName(fr.fn), ord, dst.Written, dst.GWrit)
+			for o := range dst.Written {
+				s := fmt.Sprintf("%v", st.Heap[o])
+				if len(s) > 150 {
+					s = s[:150]
+				}
+				fmt.Fprintf(os.Stderr, "   obj %d: %T %s\n", o, st.Heap[o], s)
+			}
+		}
 		// havoc
 		lr.entry = st.clone()
 		lr.preGhost = map[string]T{}
@@ -452,6 +489,9 @@ func isErrorType(t types.Type) bool {
 }
 
 func (x *Exec) execInstrs(st *State, fr *Frame, b *ssa.BasicBlock, start int, k func(*State, Val)) {
+	if t := os.Getenv("GOVC_TRACE"); t != "" && strings.Contains(fr.fn.String(), t) {
+		fmt.Fprintf(os.Stderr, "trace[q%d] %s block %d (%s) from %d\n", x.quiet, shortFuncName(fr.fn), b.Index, b.Comment, start)
+	}
 	for i := start; i < len(b.Instrs); i++ {
 		in := b.Instrs[i]
 		switch v := in.(type) {
